@@ -23,8 +23,8 @@ func c23Profile(i int) vmodel.Profile {
 	p.NoVersionID = true
 	p.Weights = map[vmodel.OpKind]int{
 		vmodel.OpCreateBucket: 7, vmodel.OpDeleteBucket: 3, vmodel.OpVersioning: 5, vmodel.OpPut: 20, vmodel.OpGet: 1, vmodel.OpHead: 1,
-		vmodel.OpDelete: 8, vmodel.OpMultiDelete: 4, vmodel.OpCopy: 10, vmodel.OpAppend: 8, vmodel.OpMpuCreate: 6, vmodel.OpMpuPart: 8,
-		vmodel.OpMpuPartCopy: 5, vmodel.OpMpuComplete: 6, vmodel.OpMpuAbort: 2, vmodel.OpPutTags: 5, vmodel.OpDelTags: 2, vmodel.OpTransition: 4,
+		vmodel.OpDelete: 8, vmodel.OpMultiDelete: 4, vmodel.OpCopy: 10, vmodel.OpAppend: 8, vmodel.OpMpuCreate: 6, vmodel.OpMpuPart: 7,
+		vmodel.OpMpuPartCopy: 8, vmodel.OpMpuComplete: 7, vmodel.OpMpuAbort: 2, vmodel.OpPutTags: 5, vmodel.OpDelTags: 2, vmodel.OpTransition: 4,
 	}
 	p.FailPct = 15
 	p.MetaPct = 55
@@ -144,19 +144,20 @@ func c23History(ctx context.Context, r *vkit.Run, stk *c23Stack, base *vkit.Rand
 	st := newStepper(base.Fork(fmt.Sprintf("C23/hist/%d", i)), prof)
 	out := c23HistResult{st: st}
 	pendingFailed := "" // a failed call after which the replicas already differed
-	for step := 0; step < steps; step++ {
-		op, exp := st.next()
+	tail := 14
+	if full {
+		tail = 1 << 20
+	}
+	// do executes one call through the replication storage and applies the oracle;
+	// it returns true when the history must end.
+	do := func(op *vmodel.Op, exp vmodel.Expect) bool {
 		res := vmodel.Exec(ctx, stk.rs, op)
 		_, desync := st.commit(op, exp, res)
 		if isReadKind(op.Kind) {
 			if desync != "" {
 				r.Count("read_desync", 1)
 			}
-			continue
-		}
-		tail := 14
-		if full {
-			tail = 1 << 20
+			return false
 		}
 		idx, field, desc := stk.compare(ctx, r)
 		if res.Kind == "" {
@@ -169,7 +170,7 @@ func c23History(ctx context.Context, r *vkit.Run, stk *c23Stack, base *vkit.Rand
 					what = fmt.Sprintf("replicas were left diverged by an earlier failed call (%s) and still differ after successful %s: %s differs: %s", pendingFailed, op, stk.labels[idx], desc)
 				}
 				out.viol = &c23Pending{sig, what, witness{Part: "seq", Config: c23Config, Index: i, Steps: steps, Tail: st.tail(tail), Detail: map[string]any{"secondary": stk.labels[idx], "diff": desc}}}
-				break
+				return true
 			}
 			pendingFailed = ""
 		} else {
@@ -182,8 +183,38 @@ func c23History(ctx context.Context, r *vkit.Run, stk *c23Stack, base *vkit.Rand
 		}
 		if desync != "" {
 			noteDesync(r, st, op, exp, res, desync)
-			break
+			return true
 		}
+		return false
+	}
+	stopped := false
+	for step := 0; step < steps && !stopped; step++ {
+		op, exp := st.next()
+		stopped = do(op, exp)
+	}
+	// drain: complete every pending multipart upload (parts are contiguous by
+	// construction) so that part uploads / part copies become visible as objects
+	if !stopped {
+		for _, bn := range vkit.SortedKeys(st.M.Buckets) {
+			mb := st.M.Buckets[bn]
+			for _, uid := range vkit.SortedKeys(mb.Uploads) {
+				u := mb.Uploads[uid]
+				if len(u.Parts) == 0 || stopped {
+					continue
+				}
+				op := &vmodel.Op{Kind: vmodel.OpMpuComplete, Bucket: bn, Key: u.Key, UploadID: uid, Intent: "drain"}
+				r.Count("drain_completes", 1)
+				stopped = do(op, st.M.Predict(op))
+			}
+		}
+	}
+	// a failed call left the replicas diverged and no successful call followed:
+	// one more successful call (CreateBucket of a fresh name) decides it
+	if out.viol == nil && pendingFailed != "" {
+		op := &vmodel.Op{Kind: vmodel.OpCreateBucket, Bucket: fmt.Sprintf("rp-probe-%d", i), Intent: "probe-after-failed-call"}
+		prof.Buckets = append(prof.Buckets, op.Bucket)
+		r.Count("probe_calls_after_failed_call", 1)
+		do(op, st.M.Predict(op))
 	}
 	for _, s := range stk.real {
 		cleanupBuckets(ctx, s, prof.Buckets)
@@ -200,7 +231,7 @@ func runC23(tier, replay string) {
 	rp := newReporter(r)
 	rf := loadReplay(replay)
 	ctx := context.Background()
-	nh, steps := r.N(30, 600), r.N(32, 60)
+	nh, steps := r.N(30, 400), r.N(30, 50)
 	workers := r.N(3, 6)
 	if rf != nil {
 		r.Seed = rf.Seed
